@@ -137,6 +137,7 @@ def reasonNoUid (uid : Int) : String := pyFormat dp_ret2_fmt [toString uid]
 def reasonNonRoot : String := dp_ret3_fmt
 def reasonGroups : String := dp_ret4_fmt
 def reasonGid : String := dp_ret5_fmt
+def reasonUid : String := dp_ret6_fmt
 
 /-! ### the script -/
 
@@ -213,7 +214,7 @@ def privSteps (c : Cfg) : List Step :=
      [ .sys .getgrall (hGuarded (dpGuard "grp.getgrall") ""),
        .sys (.setgroups (groupList c)) (hGuarded (dpGuard "os.setgroups") (msgSetuid uid reasonGroups)),
        .sys (.setgid c.pwGid) (hGuarded (dpGuard "os.setgid") (msgSetuid uid reasonGid)),
-       .sys (.setuid uid) (hGuarded (dpGuard "os.setuid") "") ])
+       .sys (.setuid uid) (hGuarded (dpGuard "os.setuid") (msgSetuid uid reasonUid)) ])
 
 def dirSteps (c : Cfg) : List Step :=
   if spawnChild_g5 none c.serverurl c.group c.environment c.directory c.umask then
